@@ -542,6 +542,16 @@ func c05Corruptions(toks []tok, visit func(class string, pos int, out []tok, mus
 			sp := append(append(clone()[:i], p(t.text[:1]), p(t.text[1:])), toks[i+1:]...)
 			visit("split", i, sp, true)
 		}
+		// a label name written as a string literal: names are identifiers, a quoted name is never valid
+		if t.kind == tWord && i+1 < len(toks) && toks[i+1].kind == tPunct && i >= 1 && toks[i-1].kind == tPunct &&
+			(toks[i-1].text == "{" || toks[i-1].text == "," || toks[i-1].text == "|") {
+			switch toks[i+1].text {
+			case "=", "!=", "=~", "!~", "==", ">", ">=", "<", "<=":
+				qn := clone()
+				qn[i] = st(t.text)
+				visit("quote-name", i, qn, true)
+			}
+		}
 		// swap with the next token
 		if i+1 < len(toks) {
 			sw := clone()
@@ -686,7 +696,7 @@ func c05Run(r *vkit.Run) {
 	}
 	r.Count("corruptions_generated", corruptions)
 	r.Count("negative_cases_that_must_be_rejected", mustRejected)
-	r.Note("bounds", fmt.Sprintf("%d generated ASTs (all stage kinds with 2-5 argument variants, pipelines of <=%d stages, 18 range-function variants x unwrap forms x groupings x offsets x [range] positions, vector aggregations incl. nested, binary operators x modifiers, label_replace, literals) x up to 12 textual renderings (6 layouts, redundant parentheses, range position, grouping position, and/,/juxtaposition); %d static-rule violations; every single-token corruption (delete, duplicate, swap, stray bracket) of %s corpus queries", len(cp), map[bool]int{false: 2, true: 3}[thorough], len(c05Static), map[bool]string{false: "a fifth of the", true: "all"}[thorough]))
+	r.Note("bounds", fmt.Sprintf("%d generated ASTs (all stage kinds with 2-5 argument variants, pipelines of <=%d stages, 18 range-function variants x unwrap forms x groupings x offsets x [range] positions, vector aggregations incl. nested, binary operators x modifiers, label_replace, literals) x up to 12 textual renderings (6 layouts, redundant parentheses, range position, grouping position, and/,/juxtaposition); %d static-rule violations; every single-token corruption (delete, duplicate, swap, stray bracket, split operator, quoted label name) of %s corpus queries", len(cp), map[bool]int{false: 2, true: 3}[thorough], len(c05Static), map[bool]string{false: "a fifth of the", true: "all"}[thorough]))
 }
 
 func c05Replay(r *vkit.Run, v vkit.Violation) *vkit.Violation {
